@@ -93,21 +93,22 @@ impl AccountTrees {
         atn: Arc<AccountTreeNode>,
         other_account_tree: Option<&HashMap<String, Arc<AccountTreeNode>>>,
     ) -> Result<(), tackler::Error> {
-        let parent = atn.parent.as_str();
-        let has_parent = other_account_tree.is_some_and(|a| a.contains_key(parent))
-            || target_account_tree.contains_key(parent);
+        // iterative on purpose: account depth is bounded only by the input size
+        let mut atn = atn;
+        loop {
+            let parent = atn.parent.as_str();
+            let has_parent = other_account_tree.is_some_and(|a| a.contains_key(parent))
+                || target_account_tree.contains_key(parent);
 
-        if has_parent || atn.is_root() {
-            // this breaks recursion
-            Ok(())
-        } else {
+            if has_parent || atn.is_root() {
+                return Ok(());
+            }
             // not an internal error: a component ending in a white space character which is
             // also an identifier character (U+1680) passes the per-component check of the
             // child, but the parent's name then ends in white space
             let parent_atn = Arc::new(AccountTreeNode::from(parent)?);
             target_account_tree.insert(parent.to_string(), parent_atn.clone());
-
-            Self::build_account_tree(target_account_tree, parent_atn, other_account_tree)
+            atn = parent_atn;
         }
     }
 
